@@ -92,8 +92,8 @@ Theorem retained_nodes_kept : forall v s w s' w',
   end.
 Proof.
   intros v s w s' w' E Htc.
-  destruct s as [id k t|id|id tag prev d kids c|arr l|ar r c|c|ph|l mk|l b]; auto;
-    destruct v as [k' t'| |tag' a c'|arr' l'|ar' r' c'|[c'|]|l'|l']; try discriminate;
+  destruct s as [id k t|id|id tag prev d kids c|arr l|ar r c|c|ph|l mk|l b|rows mk g]; auto;
+    destruct v as [k' t'| |tag' a c'|arr' l'|ar' r' c'|[c'|]|l'|l'|items']; try discriminate;
     cbn [rebuild_any] in E; rewrite Htc in E; cbn [negb] in E.
   - inversion E. reflexivity.
   - inversion E. reflexivity.
